@@ -252,8 +252,9 @@ def check_superdict(ck, col, kind, label, d, crys, chem, super_n, sd, warns, spe
 
 
 def supercell_matrices(rng, crys, n):
-    out = []
-    for _ in range(n):
+    # always one cell that is large enough to tell R from -R (3x3x3 when it has <= 60 sites), then random ones
+    out = [(3 if crys.N * 27 <= 60 else 2) * np.eye(3, dtype=int)]
+    for _ in range(n - 1):
         r = rng.random()
         if r < 0.55: m = rng.choice([1, 2, 2, 3]) * np.eye(3, dtype=int)
         elif r < 0.8: m = np.diag([rng.choice([1, 2, 3]) for _ in range(3)])
@@ -358,3 +359,31 @@ def run(ck):
     if hasattr(ck, "broken_proof") and ck.violations:
         ck.violation("proof obligation / correspondence no longer checks: " + ck.broken_proof.split("\n")[0],
                      {"obligation": ck.broken_proof}, key="c29-broken-obligation", no_input=True)
+
+
+def replay(ck, path):
+    """rebuild the calculator and supercell of a recorded case and run the direct evaluator again"""
+    import json
+    from onsager import OnsagerCalc, crystal
+    doc = json.load(open(path))
+    r = doc["replay"]
+    c = r["cfg"]
+    kind = r.get("calculator", "interstitial")
+    crys = crystal.Crystal(np.array(c["lattice"]), [[np.array(u) for u in b] for b in c["basis"]])
+    chem = c["chem"]
+    sl, jn = crys.sitelist(chem), crys.jumpnetwork(chem, c["cutoff"])
+    d = OnsagerCalc.Interstitial(crys, chem, sl, jn) if kind == "interstitial" else OnsagerCalc.VacancyMediated(crys, chem, sl, jn, 1)
+    super_n = np.array(c["supercell"], dtype=int)
+    col = Collector(ck)
+    stats = dict(states=0, transitions=0, mappings=0, mappings_none=0, states_folded=0, transitions_folded=0, warning_cells=0,
+                 cells_too_small=0, skipped_irrational=0, dictionaries=0)
+    with warnings.catch_warnings(record=True) as warns:
+        warnings.simplefilter("always")
+        try:
+            sd = d.makesupercells(super_n)
+        except Exception as e:
+            print("makesupercells raised %r" % (e,)); return 1
+    check_superdict(ck, col, kind, c["label"], d, crys, chem, super_n, sd, list(warns), c, stats)
+    for k, f in col.found.items(): print("VIOLATION reproduced [%s]: %s" % (k, f["msg"]))
+    if not col.found: print("not reproduced by the direct evaluator (the Coq checkers are run by ./check C29)")
+    return 1 if col.found else 0
